@@ -70,6 +70,16 @@ def generate(api):
     rel = "src/engine/auth/user_ops.rs"
     t = api.src(rel)
     api.grab(t, r"\.all\(\|c\| c\.is_alphanumeric\(\) \|\| c == '_' \|\| c == '-'\)", rel, "validate_user_id alphabet")
+    # reserved ids (fix 8e1fb08): tested after the empty test and before the length test
+    vbody = api.grab(t, r"fn validate_user_id\(user_id: &str\) -> AuthResult<\(\)> \{(.*?)\n\}\n", rel, "validate_user_id body", re.S).group(1)
+    m = api.grab(vbody, r"user_id\.is_empty\(\).*?if ((?:user_id == \w+(?:\s*\|\|\s*)?)+) \{\s*return Err\(AuthError::InvalidUserId\);\s*\}.*?user_id\.len\(\) > MAX_USER_ID_LENGTH",
+                 rel, "reserved-id test of validate_user_id (between the empty test and the length test)", re.S)
+    reserved_consts = re.findall(r"user_id == (\w+)", m.group(1))
+    tt = api.src("src/engine/auth/types.rs")
+    reserved = [api.grab(tt, rf'pub const {c}: &str = "([^"]*)";', "src/engine/auth/types.rs", c).group(1) for c in reserved_consts]
+    emit(f"-- {rel}: ids validate_user_id refuses ({', '.join(reserved_consts)})")
+    emit(f"def reservedIds : List (List Char) := {strs(reserved)}")
+    emit("")
 
     # ---- frontend/tcp/listener.rs: literals of the gate
     rel = "src/frontend/tcp/listener.rs"
@@ -141,6 +151,9 @@ def generate(api):
     checks = [
         ("src/command/handlers/store.rs", r"uid != BYPASS_USER_ID && !auth_mgr\.can_write\(uid, event_type\)", "storeChecksWrite"),
         ("src/command/handlers/query/handler.rs", r"uid != BYPASS_USER_ID && !auth_mgr\.can_read\(uid, event_type\)", "queryChecksReadHead"),
+        ("src/command/handlers/query/handler.rs",
+         r"if let Some\(sequence\) = event_sequence \{\s*for \(_, target\) in &sequence\.links \{\s*if uid != BYPASS_USER_ID && !auth_mgr\.can_read\(uid, &target\.event\)",
+         "queryChecksReadTail"),
         ("src/command/handlers/define.rs", r"uid != BYPASS_USER_ID && !auth_mgr\.is_admin\(uid\)", "defineChecksAdmin"),
         ("src/command/handlers/auth.rs", r"authenticated_user_id != BYPASS_USER_ID\s*&& !auth_manager\.is_admin\(authenticated_user_id\)", "userMgmtChecksAdmin"),
         ("src/command/handlers/permissions.rs", r"admin_id != BYPASS_USER_ID && !auth_manager\.is_admin\(admin_id\)", "permMgmtChecksAdmin"),
